@@ -439,6 +439,7 @@ def run(chk):
                     chk.violation("C03.save", n, K.short(n), f"self.{attr} = {buf} | {buf}[<offset>:]",
                                   f"only part of the unconsumed input is saved in self.{attr}: the dropped bytes (e.g. the CR of a CRLF that straddles the read boundary, or bytes counted by the line limit) are missing when the next read continues the line")
     latch_rule(chk, repo)
+    connect_rule(chk, repo)
 
 
 def latch_rule(chk, repo, rule="C03.latch"):
@@ -482,3 +483,21 @@ def latch_rule(chk, repo, rule="C03.latch"):
                     chk.violation(rule, a, K.short(a), f"({buf})", f"{cname}.{name}(): the one-shot latch `{attr}` guards a decision made by inspecting `{buf}`, but an empty `{buf}` also consumes it: when a read boundary falls right before the first byte the decision is skipped for good",
                                   path_condition=norm.fmt_cnf(pc))
     chk.expect_count(rule, n, 1, "one-shot latches that inspect the fed buffer")
+
+
+def connect_rule(chk, repo, rule="C03.connect"):
+    """CONNECT: the parser installs a read-until-EOF payload *and* reports `upgraded`.  Bytes that arrive in the same read as the head reach
+    that payload (the parser feeds them); the server protocol must route later reads there too, otherwise the tunnel payload the handler sees
+    depends on where the read boundary fell."""
+    dr = repo.func("aiohttp/web_protocol.py", "RequestHandler.data_received")
+    stores = [a for a in ast.walk(dr.node) if isinstance(a, ast.AugAssign) and norm.raw(a.target) == "self._message_tail"]
+    if not stores:
+        chk.analysis_error("C03.connect: `self._message_tail += data` not found in RequestHandler.data_received")
+    for a in stores:
+        txt = norm.fmt_cnf(PC.pc(a, raw=True))
+        if "_payload_parser" in txt.replace("self._payload_parser is None", "") or "has_payload" in txt or "feed_payload" in norm.raw(dr.node):
+            chk.ok(rule, a, "bytes that follow an upgraded request are buffered only when the parser does not own a payload stream for it")
+        else:
+            chk.violation(rule, a, "self._message_tail += data", "!(the parser still owns the payload stream of the upgraded request)",
+                          "after CONNECT the parser owns a read-until-EOF payload, but data_received() sends every later read to _message_tail: tunnel bytes in the same read as the head reach request.content, bytes in later reads never do - the payload depends on the cut and the handler waits for ever",
+                          path_condition=txt[:300])
